@@ -258,8 +258,9 @@ MUTANTS = {
                               "_mm256_set1_epi32(1 << (shift - 1));", "_mm256_set1_epi32((1 << (shift - 1)) - 1);", "-mavx2"),
     "inv-txfm-rounding": ("Source/Lib/Common/ASM_AVX2/highbd_inv_txfm_avx2.c", "static INLINE void round_shift_4x4_avx2(",
                           "_mm256_set1_epi32(1 << (shift - 1));", "_mm256_set1_epi32((1 << (shift - 1)) - 1);", "-mavx2"),
-    "lpf-saturate-vs-wrap": ("Source/Lib/Common/ASM_SSE2/EbDeblockingFilter_Intrinsic_SSE2.c", "+ 3 * (qs0 - ps0)",
-                             "_mm_subs_epi8(", "_mm_sub_epi8(", "-msse2"),
+    "lpf-filter4-rounding-lane": ("Source/Lib/Common/ASM_SSE2/EbDeblockingFilter_Intrinsic_SSE2.c", "AOM_FORCE_INLINE void filter4_sse2(",
+                                  "_mm_set_epi8(3, 3, 3, 3, 3, 3, 3, 3, 4, 4, 4, 4, 4, 4, 4, 4);", "_mm_set_epi8(3, 3, 3, 3, 3, 3, 3, 3, 4, 4, 4, 4, 4, 4, 4, 3);",
+                                  "-msse2"),
     "cdef-constrain-saturate": ("Source/Lib/Common/ASM_AVX2/cdef_block_avx2.c", "",
                                 "_mm256_subs_epu16(threshold, l);", "_mm256_sub_epi16(threshold, l);", "-mavx2"),
     "obmc-variance-bias": ("Source/Lib/Encoder/ASM_AVX2/obmc_variance_avx2.c", "static INLINE void obmc_variance_w8n(",
